@@ -141,8 +141,35 @@ func LoadDHCPv6Records(filename string) (map[string]net.IP, error) {
 	return records, nil
 }
 
+// pluginState holds the MAC -> IP address mapping of one configured instance
+// of the plugin. The DHCPv6 and the DHCPv4 servers can each use the plugin with
+// their own lease file, so the mapping cannot be shared between instances.
+type pluginState struct {
+	sync.RWMutex
+	records map[string]net.IP
+}
+
+func (p *pluginState) lookup(mac string) (net.IP, bool) {
+	p.RLock()
+	defer p.RUnlock()
+	ipaddr, ok := p.records[mac]
+	return ipaddr, ok
+}
+
+// lookupStatic looks up the legacy global mapping, StaticRecords
+func lookupStatic(mac string) (net.IP, bool) {
+	recLock.RLock()
+	defer recLock.RUnlock()
+	ipaddr, ok := StaticRecords[mac]
+	return ipaddr, ok
+}
+
 // Handler6 handles DHCPv6 packets for the file plugin
 func Handler6(req, resp dhcpv6.DHCPv6) (dhcpv6.DHCPv6, bool) {
+	return handle6(lookupStatic, req, resp)
+}
+
+func handle6(lookup func(string) (net.IP, bool), req, resp dhcpv6.DHCPv6) (dhcpv6.DHCPv6, bool) {
 	m, err := req.GetInnerMessage()
 	if err != nil {
 		log.Errorf("BUG: could not decapsulate: %v", err)
@@ -161,10 +188,7 @@ func Handler6(req, resp dhcpv6.DHCPv6) (dhcpv6.DHCPv6, bool) {
 	}
 	log.Debugf("looking up an IP address for MAC %s", mac.String())
 
-	recLock.RLock()
-	defer recLock.RUnlock()
-
-	ipaddr, ok := StaticRecords[mac.String()]
+	ipaddr, ok := lookup(mac.String())
 	if !ok {
 		log.Warningf("MAC address %s is unknown", mac.String())
 		return resp, false
@@ -186,10 +210,11 @@ func Handler6(req, resp dhcpv6.DHCPv6) (dhcpv6.DHCPv6, bool) {
 
 // Handler4 handles DHCPv4 packets for the file plugin
 func Handler4(req, resp *dhcpv4.DHCPv4) (*dhcpv4.DHCPv4, bool) {
-	recLock.RLock()
-	defer recLock.RUnlock()
+	return handle4(lookupStatic, req, resp)
+}
 
-	ipaddr, ok := StaticRecords[req.ClientHWAddr.String()]
+func handle4(lookup func(string) (net.IP, bool), req, resp *dhcpv4.DHCPv4) (*dhcpv4.DHCPv4, bool) {
+	ipaddr, ok := lookup(req.ClientHWAddr.String())
 	if !ok {
 		log.Warningf("MAC address %s is unknown", req.ClientHWAddr.String())
 		return resp, false
@@ -220,7 +245,9 @@ func setupFile(v6 bool, args ...string) (handler.Handler6, handler.Handler4, err
 	}
 
 	// load initial database from lease file
-	if err = loadFromFile(v6, filename); err != nil {
+	state := &pluginState{}
+	nrecords, err := state.loadFromFile(v6, filename)
+	if err != nil {
 		return nil, nil, err
 	}
 
@@ -242,23 +269,27 @@ func setupFile(v6 bool, args ...string) (handler.Handler6, handler.Handler4, err
 		// on the file
 		go func() {
 			for range watcher.Events {
-				err := loadFromFile(v6, filename)
+				n, err := state.loadFromFile(v6, filename)
 				if err != nil {
 					log.Warningf("failed to refresh from %s: %s", filename, err)
 
 					continue
 				}
 
-				log.Infof("updated to %d leases from %s", len(StaticRecords), filename)
+				log.Infof("updated to %d leases from %s", n, filename)
 			}
 		}()
 	}
 
-	log.Infof("loaded %d leases from %s", len(StaticRecords), filename)
-	return Handler6, Handler4, nil
+	log.Infof("loaded %d leases from %s", nrecords, filename)
+	h6 := func(req, resp dhcpv6.DHCPv6) (dhcpv6.DHCPv6, bool) { return handle6(state.lookup, req, resp) }
+	h4 := func(req, resp *dhcpv4.DHCPv4) (*dhcpv4.DHCPv4, bool) { return handle4(state.lookup, req, resp) }
+	return h6, h4, nil
 }
 
-func loadFromFile(v6 bool, filename string) error {
+// loadFromFile (re)loads the mapping of this instance, and returns the number of
+// records. The mapping loaded last is also published as StaticRecords.
+func (p *pluginState) loadFromFile(v6 bool, filename string) (int, error) {
 	var err error
 	var records map[string]net.IP
 	var protver int
@@ -270,13 +301,17 @@ func loadFromFile(v6 bool, filename string) error {
 		records, err = LoadDHCPv4Records(filename)
 	}
 	if err != nil {
-		return fmt.Errorf("failed to load DHCPv%d records: %w", protver, err)
+		return 0, fmt.Errorf("failed to load DHCPv%d records: %w", protver, err)
 	}
+
+	p.Lock()
+	p.records = records
+	p.Unlock()
 
 	recLock.Lock()
 	defer recLock.Unlock()
 
 	StaticRecords = records
 
-	return nil
+	return len(records), nil
 }
